@@ -526,8 +526,88 @@ func migScenario(r *RunCtx) {
 	r.Sample["v2_statuses"] = sts
 }
 
+// migFaultScenario: a disk I/O fault (1-3 failing operations, or a disk that stays broken) hits the k-th datastore
+// operation of the start-up. Whatever the migration makes of it, readiness must be announced exactly once per
+// listener and must tell the truth: nil only if the store is migrated and usable, an error otherwise - and then
+// channel operations are refused.
+func migFaultScenario(r *RunCtx) {
+	w := r.W
+	n := w.NewNode(r, "A", NodeCfg{Types: []datatransfer.TypeIdentifier{"T0"}, AllowReadyErr: true})
+	n.ValNew = func(string, datatransfer.ChannelID) (datatransfer.ValidationResult, error) {
+		return datatransfer.ValidationResult{Accepted: true}, nil
+	}
+	n.ValRest = func(datatransfer.ChannelID, datatransfer.ChannelState) (datatransfer.ValidationResult, error) {
+		return datatransfer.ValidationResult{Accepted: true}, nil
+	}
+	_ = w.NewNode(r, "B", NodeCfg{})
+	nrec := 1 + r.Intn(6)
+	recs := map[datatransfer.ChannelID]*v2Rec{}
+	for i := 0; i < nrec; i++ {
+		v := genV2(r, n.ID, i)
+		if _, dup := recs[v.chid()]; dup {
+			continue
+		}
+		recs[v.chid()] = v
+		_ = n.Disk.Put(context.Background(), dsKey("/2/"+v.chid().String()), encodeV2(v))
+	}
+	_ = n.Disk.Put(context.Background(), dsKey("/versions/current"), []byte("2"))
+	n.Disk.Log = nil
+	n.Disk.FailAt = 1 + r.Intn(6+6*len(recs))
+	n.Disk.FailLen = []int{1, 1, 2, 3, 1 << 30}[r.Intn(5)]
+	readyCalls := make([]int, 3)
+	var outcomes []error
+	n.PreStart = func(m datatransfer.Manager) {
+		for i := range readyCalls {
+			i := i
+			m.OnReady(func(err error) {
+				readyCalls[i]++
+				outcomes = append(outcomes, err)
+			})
+		}
+	}
+	if !n.Start() {
+		return
+	}
+	WaitQuiet()
+	fired := n.Disk.FaultsFired
+	n.Disk.FailAt = 0 // the disk works again: what follows judges the announced outcome, not new faults
+	if fired > 0 {
+		r.Fault("disk-io-error-during-startup")
+	}
+	for i, c := range readyCalls {
+		if c != 1 {
+			r.Failf("C13", "readiness-announced-wrong-count", fmt.Sprint(c), "ready listener %d registered before Start was called %d times (disk fault at operation %d)", i, c, n.Disk.FailAt)
+		}
+	}
+	for _, e := range outcomes {
+		if (e == nil) != (outcomes[0] == nil) {
+			r.Failf("C13", "readiness-outcomes-differ", "", "listeners were told different migration outcomes: %v", outcomes)
+		}
+	}
+	if len(outcomes) == 0 {
+		return
+	}
+	m, lerr := n.Mgr.InProgressChannels(context.Background())
+	migrated := string(n.Disk.m["/versions/current"]) == "3"
+	if outcomes[0] == nil {
+		r.Probe("fault-survived-or-missed")
+		if !migrated || lerr != nil || len(m) != len(recs) {
+			r.Failf("C13", "readiness-nil-but-store-not-migrated", fmt.Sprintf("version=%s", n.Disk.m["/versions/current"]), "readiness was announced with a nil outcome after a disk fault, yet the store is not usable: version key %q, InProgressChannels -> %d channels, err %v (expected %d)", n.Disk.m["/versions/current"], len(m), lerr, len(recs))
+		}
+		return
+	}
+	r.Probe("migration-failed-and-said-so")
+	if lerr == nil {
+		r.Failf("C13", "operation-after-failed-migration-accepted", "InProgressChannels", "the migration outcome was %v, yet InProgressChannels returned %d channels instead of refusing", outcomes[0], len(m))
+	}
+	if _, err := n.Mgr.ChannelState(context.Background(), sortedBy(recs, chidStr)[0]); err == nil {
+		r.Failf("C13", "operation-after-failed-migration-accepted", "ChannelState", "the migration outcome was %v, yet ChannelState answered instead of refusing", outcomes[0])
+	}
+}
+
 func init() {
-	Register("C13", Stratum{Name: "migration-2-to-3", Weight: 1, Fn: migScenario, MaxSteps: 300_000, Horizon: time.Hour})
+	Register("C13", Stratum{Name: "migration-2-to-3", Weight: 3, Fn: migScenario, MaxSteps: 300_000, Horizon: time.Hour},
+		Stratum{Name: "migration-with-disk-io-fault", Weight: 1, Fn: migFaultScenario, MaxSteps: 300_000, Horizon: time.Hour})
 }
 
 var _ = channels.IsChannelTerminated
